@@ -121,6 +121,16 @@ CHECKS = {
         "trees whose path contains a widget without move_cursor_to_coords (Frame, Overlay, ListBox) are outside the quantifier for the move clauses.",
         "DESIGN.md §4 C09",
     ),
+    "C08": (
+        MC,
+        "explicit-state BFS over histories of keys, button-1 presses on every cell, focus_position / set_focus_path assignments (valid and invalid) and contents mutations on nested container fixtures with recording probe leaves; focus invariants on every state, input-routing clauses on every transition",
+        "19 fixtures (Pile flow/box, Columns, Pile(Columns), Columns(Pile), Pile(Pile), GridFlow, Frame, Frame(Columns header, ListBox), Overlay, ListBox, ListBox(Pile), empty and all-unselectable "
+        "containers); operations: 10 keys, presses on every cell, focus_position for every valid position and -1/len/'bogus' on every container, focus-path round trip and restore, contents "
+        "insert/assign/replace-all/delete/slice-delete (reversed, extended)/clear, walker insert/delete, Frame header/footer set/remove; depth 3/4 with dedup on the complete focus state; every "
+        "state rendered (as the main loop does after each input).",
+        "Trusted: mc/probe.py; 'arrows move focus only onto selectable children' judged on Pile/Columns/GridFlow/Frame; at most 2 new widgets per history.",
+        "DESIGN.md §4 C08",
+    ),
 }
 
 PENDING_REASON = "check not built yet in this round (see DESIGN.md Appendix B build order); no claim is made"
